@@ -297,6 +297,10 @@ def make_strategy_class():
                         res.result = True
                     elif kind == "execute" and transaction is not None:
                         res.result = transaction.execute()
+                    elif kind == "raise":
+                        # a bug in the strategy's own code (possibly inside a `with market.transaction()` block)
+                        self.lab.fault_fired = True
+                        raise RuntimeError("injected inside the callback")
                     elif kind == "line_result":
                         market.context["line_range_result"] = op["value"]
                         res.result = "set"
